@@ -87,6 +87,9 @@ ApplyRule(ms, r) ==
             ELSE Res("ok", [q \in 1..Len(ms) |-> [ms[q] EXCEPT !.nm = IF q = j THEN r.b ELSE @,
                                                            !.szr = IF @ = r.a THEN r.b ELSE @]])
       [] r.op = "absent" -> Res("ignored", ms)       \* rule for a message that does not exist
+      \* "<NODE> rename <NEW>": the struct type of the base environment gets another name; every member
+      \* that refers to it follows, so nothing changes at this level (types are referred to by index)
+      [] r.op = "rename_type" -> Res("ok", ms)
 
 (* ---- to Schema members (sizers resolved by name) ----------------------------- *)
 Resolved(ms) ==
@@ -119,6 +122,7 @@ Scripts ==
     \cup {<< [op |-> "insert", a |-> "extra", b |-> "", c |-> "", t |-> Int(2), n |-> p] >> : p \in {0, 1, 999}}
     \cup {<< [op |-> "remove", a |-> "f1", b |-> "", c |-> "", t |-> Int(1), n |-> 0] >>}
     \cup {<< [op |-> "rename", a |-> "f2", b |-> "g2", c |-> "", t |-> Int(1), n |-> 0] >>}
+    \cup {<< [op |-> "rename_type", a |-> "T2", b |-> "R2", c |-> "", t |-> Int(1), n |-> 0] >>}
     \* renaming a member that sizes arrays: the arrays follow (f1 in the "@f1" forms, the implicit counters)
     \cup {<< [op |-> "rename", a |-> x, b |-> "cnt", c |-> "", t |-> Int(1), n |-> 0] >> : x \in {"f1", "f2_len", "f1_len"}}
     \cup {<< [op |-> "static", a |-> "f2", b |-> "", c |-> "", t |-> Int(1), n |-> 4] >>}
